@@ -318,7 +318,7 @@ def run(chk, failed):
         add(judge(chk, cases, rows, "nonint"))
         if len(leaks) >= 12:
             break
-    if search and not leaks:
+    if search and not leaks and not diffs:
         # an obligation failed: look harder for a request that shows it -- rich configurations (every section, every
         # notifier class, every cluster behind a SASL profile), module names and parameters drawn from the string
         # literals of the sources (a leak that needs one particular name), every literal as a parameter and as the key
